@@ -500,7 +500,7 @@ def main(tier):
     NS = [0, 1, 2, 3, 4] if tier == "quick" else [0, 1, 2, 3, 4, 5, 6]
     check.run_jobs([(_compile, (Ks, KL, NS, tier))])
     jobs = [(job_bases, (Ks, KL, NS, tier))] + [(job_iap, (Ks, KL, NS, tier, i, 10)) for i in range(10)] + [(job_search, (N, Ks, KL, NS, tier)) for N in NS]
-    run.extend(check.run_jobs(jobs, timeout=1200 if tier == "quick" else 7200))
+    run.extend(check.run_jobs(jobs, timeout=1200 if tier == "quick" else 1800))
     run.assumptions += ["constants are read as the simplest rational within half an ulp", "search ranges: finite reals, sorted (repeats allowed); +-inf/NaN excluded",
                         "CBMC bit-precise lane for the search (DESIGN 2.9) not built; the search is decided in layer R"]
     return run.finish()
